@@ -12,4 +12,7 @@ def handleD01 : Handler := fun op args =>
       | some true => "in"
       | some false => "out"
       | none => "na")
+  | "judge.c01.scope1", [.atom "length", o, w] => do
+    pure (if D01.inScopeLength (← Value.ofSexp o) (← Value.ofSexp w) then "in" else "out")
+  | "judge.c01.scope1", _ => some "na"
   | _, _ => none
